@@ -319,7 +319,9 @@ class Rewriter:
     def option_closures(self, text):
         """R22 (opt-in per function, `optclosures`): Option combinators taking a closure are desugared to `match`, the
         closure body kept verbatim:  RECV.map(|x| BODY) -> (match RECV { Some(x) => Some(BODY), None => None }),
-        RECV.unwrap_or_else(|| BODY) -> (match RECV { Some(vx_v) => vx_v, None => BODY }).  Verus gives closures
+        RECV.unwrap_or_else(|| BODY) -> (match RECV { Some(vx_v) => vx_v, None => BODY }),
+        RECV.ok_or_else(|| BODY) -> (match RECV { Some(vx_v) => Ok(vx_v), None => Err(BODY) }),
+        RECV.map_or(D, |x| BODY) -> (match RECV { Some(x) => BODY, None => D }).  Verus gives closures
         without an `ensures` clause no specification, so the combinator form would lose the body."""
         guard = 0
         while True:
@@ -330,8 +332,12 @@ class Rewriter:
             found = None
             for k, t in enumerate(toks):
                 if (t.kind == "punct" and t.text == "." and k + 3 < len(toks) and toks[k + 1].kind == "ident"
-                        and toks[k + 1].text in ("map", "unwrap_or_else") and toks[k + 2].text == "("
+                        and toks[k + 1].text in ("map", "unwrap_or_else", "ok_or_else") and toks[k + 2].text == "("
                         and toks[k + 3].text == "|"):
+                    found = k
+                    break
+                if (t.kind == "punct" and t.text == "." and k + 3 < len(toks) and toks[k + 1].kind == "ident"
+                        and toks[k + 1].text == "map_or" and toks[k + 2].text == "("):
                     found = k
                     break
             if found is None:
@@ -339,14 +345,32 @@ class Rewriter:
             k = found
             which = toks[k + 1].text
             close = match_close(toks, k + 2)
-            # closure parameters
-            j = k + 4
+            default_src = None
+            if which == "map_or":
+                # RECV.map_or(DEFAULT, |x| BODY): find the top-level comma that ends DEFAULT
+                depth = 0
+                c = k + 3
+                while c < close:
+                    tt = toks[c]
+                    if tt.kind == "punct" and tt.text in OPEN:
+                        depth += 1
+                    elif tt.kind == "punct" and tt.text in CLOSE:
+                        depth -= 1
+                    elif tt.kind == "punct" and tt.text == "," and depth == 0:
+                        break
+                    c += 1
+                if c >= close or toks[c + 1].text != "|":
+                    raise ExtractError("R22: unsupported .map_or(..) shape")
+                default_src = text[toks[k + 3].start:toks[c].start].strip()
+                j = c + 2
+            else:
+                j = k + 4
             params = []
             while toks[j].text != "|":
                 params.append(toks[j])
                 j += 1
             body_src = text[toks[j].end:toks[close].start].strip()
-            if which == "map":
+            if which in ("map", "map_or"):
                 if len(params) != 1 or params[0].kind != "ident":
                     raise ExtractError("R22: unsupported closure parameters in .map(..)")
                 pname = params[0].text
@@ -373,6 +397,10 @@ class Rewriter:
             recv = text[rs:toks[k].start].strip()
             if which == "map":
                 repl = "(match %s { Some(%s) => Some(%s), None => None })" % (recv, pname, body_src)
+            elif which == "map_or":
+                repl = "(match %s { Some(%s) => %s, None => %s })" % (recv, pname, body_src, default_src)
+            elif which == "ok_or_else":
+                repl = "(match %s { Some(vx_v) => Ok(vx_v), None => Err(%s) })" % (recv, body_src)
             else:
                 repl = "(match %s { Some(vx_v) => vx_v, None => %s })" % (recv, body_src)
             whole = text[rs:toks[close].end]
